@@ -178,3 +178,135 @@ def iter_stmts(fnode):
     for n in ast.walk(fnode):
         if isinstance(n, ast.stmt) and n is not fnode:
             yield n
+
+
+# ---------------------------------------------------------------------------
+# Temporaries: `t = <expr>` bound exactly once and only read afterwards.
+# Structural rules look at the function with such temporaries substituted
+# back, so "split a long expression into named temporaries" (and the
+# reverse) does not change what a rule sees.
+def inline_temporaries(fnode, max_rounds=80):
+    """Deep copy of `fnode` in which every local that
+      * is stored exactly once in the function (plain `name = expr`, not a
+        parameter, loop target, with-target, augmented or deleted),
+      * whose defining statement is not inside a loop that the use is outside of,
+      * and none of whose free names is re-stored between the definition and
+        a use (line order),
+    is replaced by its defining expression at every read; the defining
+    statement is removed when all reads were replaced.  Line numbers of the
+    moved expressions are kept."""
+    import copy
+    f = copy.deepcopy(fnode)
+    for _ in range(max_rounds):
+        if not _inline_once(f):
+            break
+    return f
+
+
+def _inline_once(f):
+    import copy
+    params = {a.arg for a in f.args.args + f.args.kwonlyargs + f.args.posonlyargs}
+    if f.args.vararg:
+        params.add(f.args.vararg.arg)
+    if f.args.kwarg:
+        params.add(f.args.kwarg.arg)
+    stores = {}
+    nested = set()
+    for n in ast.walk(f):
+        if n is not f and isinstance(n, (ast.FunctionDef, ast.AsyncFunctionDef, ast.Lambda, ast.ClassDef)):
+            for x in ast.walk(n):
+                if isinstance(x, ast.Name):
+                    nested.add(x.id)
+    for n in ast.walk(f):
+        if isinstance(n, ast.Name) and isinstance(n.ctx, (ast.Store, ast.Del)):
+            stores.setdefault(n.id, []).append(n)
+        elif isinstance(n, (ast.Subscript, ast.Attribute)) and isinstance(n.ctx, (ast.Store, ast.Del)):
+            b = n
+            while isinstance(b, (ast.Subscript, ast.Attribute)):
+                b = b.value
+            if isinstance(b, ast.Name):
+                stores.setdefault(b.id, []).append(n)      # in-place write counts as a store
+    # method calls that mutate (x.append, x.sort ...) count as stores of x
+    for n in ast.walk(f):
+        if isinstance(n, ast.Expr) and isinstance(n.value, ast.Call) and isinstance(n.value.func, ast.Attribute) \
+                and isinstance(n.value.func.value, ast.Name):
+            stores.setdefault(n.value.func.value.id, []).append(n.value)
+    # candidate definitions: top-level-or-nested simple Assign statements
+    parents = {}
+    for n in ast.walk(f):
+        for ch in ast.iter_child_nodes(n):
+            parents[ch] = n
+    cands = {}
+    for n in ast.walk(f):
+        if isinstance(n, ast.Assign) and len(n.targets) == 1 and isinstance(n.targets[0], ast.Name):
+            name = n.targets[0].id
+            if name in params or name in nested or len(stores.get(name, [])) != 1:
+                continue
+            if any(isinstance(x, (ast.Yield, ast.YieldFrom, ast.Await, ast.NamedExpr, ast.Lambda)) for x in ast.walk(n.value)):
+                continue
+            cands[name] = n
+    if not cands:
+        return False
+
+    def loops_of(node):
+        out = []
+        x = parents.get(node)
+        while x is not None and x is not f:
+            if isinstance(x, (ast.For, ast.While)):
+                out.append(x)
+            x = parents.get(x)
+        return out
+
+    changed = False
+    for name, d in cands.items():
+        uses = [n for n in ast.walk(f) if isinstance(n, ast.Name) and n.id == name and isinstance(n.ctx, ast.Load)]
+        if not uses:
+            continue
+        free = {x.id for x in ast.walk(d.value) if isinstance(x, ast.Name)}
+        if name in free:
+            continue
+        dl = loops_of(d)
+        ok_all = True
+        for u in uses:
+            if u.lineno <= d.lineno:
+                ok_all = False
+                break
+            ul = loops_of(u)
+            if any(l not in ul for l in dl):
+                ok_all = False      # defined in a loop, read after it
+                break
+            if any(l not in dl for l in ul):
+                # read inside a loop the definition is outside of: the free
+                # names must not be stored anywhere in that loop
+                inner = [l for l in ul if l not in dl]
+                lo = min(l.lineno for l in inner)
+                hi = max(getattr(l, "end_lineno", l.lineno) for l in inner)
+            else:
+                lo, hi = d.lineno, u.lineno
+            for x in free:
+                for s in stores.get(x, []):
+                    if min(lo, d.lineno) < s.lineno <= max(hi, u.lineno) and s is not d.targets[0]:
+                        ok_all = False
+            # calls may have effects: only move a call if nothing is stored at all in between
+            if not ok_all:
+                break
+        if not ok_all:
+            continue
+        # replace
+        class R(ast.NodeTransformer):
+            def visit_Name(self, n):
+                if n.id == name and isinstance(n.ctx, ast.Load):
+                    return copy.deepcopy(d.value)
+                return n
+        R().visit(f)
+        # drop the definition
+        par = parents.get(d)
+        for field in ("body", "orelse", "finalbody"):
+            lst = getattr(par, field, None)
+            if isinstance(lst, list) and d in lst:
+                lst.remove(d)
+                if not lst:
+                    lst.append(ast.copy_location(ast.Pass(), d))
+        changed = True
+        break      # parents/stores are stale: recompute
+    return changed
